@@ -242,7 +242,12 @@ func (v *Validator) compareOneOf(
 	grammarSpec := v.grammar.Types
 
 	for _, one := range specOneOf.GetType() {
-		name := one.GetTypeRef().GetRef().GetPath()[0]
+		path := one.GetTypeRef().GetRef().GetPath()
+		if len(path) == 0 {
+			// a primitive member of the union names no grammar rule to compare with
+			continue
+		}
+		name := path[0]
 
 		if strings.Index(name, "__Choice_Combination_") == 0 {
 			if len(implAttrs) == 1 {
